@@ -57,12 +57,12 @@ type HelperReport struct {
 		Parent     int    `json:"parent"`
 		Root       bool   `json:"root"`
 		Functions  []struct {
-			Name       string `json:"name"`
-			ThriftName string `json:"thriftName"`
+			Name       string                        `json:"name"`
+			ThriftName string                        `json:"thriftName"`
 			Args       []struct{ Name, Type string } `json:"args"`
-			Ret        string `json:"ret"`
+			Ret        string                        `json:"ret"`
 			Exceptions []struct{ Name, Type string } `json:"exceptions"`
-			OneWay     bool `json:"oneWay"`
+			OneWay     bool                          `json:"oneWay"`
 		} `json:"functions"`
 	} `json:"services"`
 	Problems []string `json:"problems"`
